@@ -229,7 +229,7 @@ func refParseClass(body string) (*[256]bool, bool) {
 			return nil, false // a dangling or doubled hyphen is not a valid expression
 		}
 		if i+2 < len(body) && body[i+1] == '-' && body[i+2] != '-' {
-			if body[i+2] == 0xff || body[i+2] < c {
+			if body[i+2] < c {
 				return nil, false // a reversed range has no documented meaning
 			}
 			for x := int(c); x <= int(body[i+2]); x++ {
